@@ -3,6 +3,7 @@ package sim
 import (
 	"errors"
 	"fmt"
+	"strings"
 
 	"github.com/aws/aws-sdk-go/aws"
 	"github.com/aws/aws-sdk-go/aws/awserr"
@@ -290,6 +291,19 @@ func (d *V1) Exec(cmd *Cmd) (o Outcome) {
 		if cmd.Native == "activate" {
 			d.cl.ActivateNativeInterpreter()
 		}
+		if cmd.Native == "updater-panic" {
+			d.cl.GetNativeInterpreter().AddUpdater(cmd.T, UpdText(cmd), func(item, _ map[string]*mtypes.Item) {
+				s := "partial"
+				item["a"] = &mtypes.Item{S: &s}
+				panic("harness updater panics on purpose")
+			})
+		}
+		if cmd.Native == "updater-set" {
+			d.cl.GetNativeInterpreter().AddUpdater(cmd.T, UpdText(cmd), func(item, _ map[string]*mtypes.Item) {
+				s := "native-updater"
+				item["a"] = &mtypes.Item{S: &s}
+			})
+		}
 		if cmd.Native == "matcher-panic" {
 			d.cl.GetNativeInterpreter().AddMatcher(cmd.T, interpreter.ExpressionTypeFilter, FilterText(cmd), func(_, _ map[string]*mtypes.Item) bool { panic("harness matcher panics on purpose") })
 		}
@@ -512,6 +526,9 @@ func (d *V1) update(cmd *Cmd) (o Outcome) {
 	p := d.parts(cmd, "")
 	in := &dynamodb.UpdateItemInput{TableName: aws.String(cmd.T), Key: itemToV1(fullKey(cmd)), UpdateExpression: p.upd, ConditionExpression: p.cond,
 		ExpressionAttributeNames: p.names, ExpressionAttributeValues: p.values, ReturnValues: aws.String("ALL_NEW")}
+	if cmd.RetVal != "" {
+		in.ReturnValues = aws.String(cmd.RetVal)
+	}
 	d.keepIn(cmd.ID, "Key", in.Key)
 	d.keepIn(cmd.ID, "Values", p.values)
 	out, err := d.cl.UpdateItem(in)
@@ -542,6 +559,9 @@ func (d *V1) search(cmd, shape *Cmd, lek map[string]*dynamodb.AttributeValue) (o
 		if shape.Back {
 			in.ScanIndexForward = aws.Bool(false)
 		}
+		if len(shape.Proj) > 0 {
+			in.ProjectionExpression = aws.String(strings.Join(shape.Proj, ", "))
+		}
 		var out *dynamodb.QueryOutput
 		out, err = d.cl.Query(in)
 		if err == nil {
@@ -550,6 +570,9 @@ func (d *V1) search(cmd, shape *Cmd, lek map[string]*dynamodb.AttributeValue) (o
 	} else {
 		in := &dynamodb.ScanInput{TableName: aws.String(shape.T), IndexName: strp(shape.Index), FilterExpression: p.filter,
 			ExpressionAttributeNames: p.names, ExpressionAttributeValues: p.values, Limit: lim, ExclusiveStartKey: lek}
+		if len(shape.Proj) > 0 {
+			in.ProjectionExpression = aws.String(strings.Join(shape.Proj, ", "))
+		}
 		var out *dynamodb.ScanOutput
 		out, err = d.cl.Scan(in)
 		if err == nil {
